@@ -463,7 +463,7 @@ impl FatVolume {
                                 first_dir_block_num = self.cluster_to_block(c);
                                 Some(c)
                             }
-                            _ => None,
+                            Err(e) => return Err(e),
                         };
                     } else {
                         current_cluster = None;
@@ -527,7 +527,7 @@ impl FatVolume {
                             first_dir_block_num = self.cluster_to_block(c);
                             Some(c)
                         }
-                        _ => None,
+                        Err(e) => return Err(e),
                     };
                 }
                 // We ran out of clusters in the chain, and apparently we weren't
@@ -731,7 +731,8 @@ impl FatVolume {
                         first_dir_block_num = self.cluster_to_block(n);
                         Some(n)
                     }
-                    _ => None,
+                    Err(Error::EndOfFile) => None,
+                    Err(e) => return Err(e),
                 };
             } else {
                 current_cluster = None;
@@ -777,7 +778,8 @@ impl FatVolume {
             }
             current_cluster = match self.next_cluster(block_cache, cluster) {
                 Ok(n) => Some(n),
-                _ => None,
+                Err(Error::EndOfFile) => None,
+                Err(e) => return Err(e),
             };
         }
         Ok(())
@@ -831,7 +833,8 @@ impl FatVolume {
                                 first_dir_block_num = self.cluster_to_block(n);
                                 Some(n)
                             }
-                            _ => None,
+                            Err(Error::EndOfFile) => None,
+                            Err(e) => return Err(e),
                         };
                     } else {
                         current_cluster = None;
@@ -859,7 +862,8 @@ impl FatVolume {
                     }
                     current_cluster = match self.next_cluster(block_cache, cluster) {
                         Ok(n) => Some(n),
-                        _ => None,
+                        Err(Error::EndOfFile) => None,
+                        Err(e) => return Err(e),
                     }
                 }
                 Err(Error::NotFound)
@@ -947,7 +951,8 @@ impl FatVolume {
                                 first_dir_block_num = self.cluster_to_block(n);
                                 Some(n)
                             }
-                            _ => None,
+                            Err(Error::EndOfFile) => None,
+                            Err(e) => return Err(e),
                         };
                     } else {
                         current_cluster = None;
@@ -984,7 +989,8 @@ impl FatVolume {
                     // Find the next cluster
                     current_cluster = match self.next_cluster(block_cache, cluster) {
                         Ok(n) => Some(n),
-                        _ => None,
+                        Err(Error::EndOfFile) => None,
+                        Err(e) => return Err(e),
                     }
                 }
                 // Ok, give up
@@ -1133,7 +1139,7 @@ impl FatVolume {
         let new_cluster = match self.find_next_free_cluster(block_cache, start_cluster, end_cluster)
         {
             Ok(cluster) => cluster,
-            Err(_) if start_cluster.0 > RESERVED_ENTRIES => {
+            Err(Error::NotEnoughSpace) if start_cluster.0 > RESERVED_ENTRIES => {
                 debug!(
                     "Retrying, finding next free between {:?}..={:?}",
                     ClusterId(RESERVED_ENTRIES),
